@@ -207,7 +207,8 @@ func negotiateFeatures(ctx context.Context, s *Session, first, ws bool, features
 			// informational only and not meant to be negotiated: error.
 			_, negotiated := s.negotiated[start.Name.Space]
 			data, sent = list.cache[start.Name.Space]
-			if !sent || negotiated || data.feature.Negotiate == nil {
+			if !sent || negotiated || data.feature.Negotiate == nil ||
+				s.state&data.feature.Necessary != data.feature.Necessary || s.state&data.feature.Prohibited != 0 {
 				// TODO: What should we return here?
 				return mask, rw, stream.PolicyViolation
 			}
@@ -242,6 +243,11 @@ func negotiateFeatures(ctx context.Context, s *Session, first, ws bool, features
 					if _, ok := s.negotiated[v.feature.Name.Space]; ok || v.feature.Negotiate == nil {
 						// If this feature has already been negotiated, or is informational
 						// only with no negotiation, skip it.
+						continue
+					}
+					if s.state&v.feature.Necessary != v.feature.Necessary || s.state&v.feature.Prohibited != 0 {
+						// A feature negotiated earlier from this list changed the state so
+						// that this feature's prerequisites no longer hold.
 						continue
 					}
 
